@@ -225,7 +225,7 @@ def wager (s : State) (creator : Nat) (tk : Tk) (uid : Nat) (amount : Int) (pl :
                   | none => (s, .err)
                   | some s2 =>
                     let bet : Bet := { uid := uid, id := betId, creator := creator, market := pl.market, odds := pl.odds,
-                                       oddsVal := ov, amount := amt, fee := fee, status := BS_PLACED, result := BR_PENDING,
+                                       oddsVal := ov, amount := (fulfs.map (·.bet)).sum, fee := fee, status := BS_PLACED, result := BR_PENDING,
                                        mult := pl.mult, createdAt := s.time, fulfs := fulfs }
                     ({ (setBook s2 b') with bets := upsert Bet.key bet s2.bets,
                                             pending := upsert (fun x => [x.1, x.2.1]) (pl.market, betId, uid, creator) s2.pending,
